@@ -218,6 +218,11 @@ def no_std_programs(ck, tier, rnd):
         for entry in ("attr", "derive"):
             progs.append("#![no_std]\n#![allow(dead_code)]\n%s %s\n" % (rf.derive_head(traits, entry), sh))
     progs.append("#![no_std]\n#![allow(dead_code)]\n#[::derive_ex::derive_ex(Add, SubAssign, Neg, Deref, DerefMut)] pub struct T(pub i32);\n")
+    for traits in ("Ord, PartialOrd, Eq, PartialEq", "PartialOrd, PartialEq"):
+        progs.append("#![no_std]\n#![allow(dead_code)]\n#[::derive_ex::derive_ex(%s)] pub struct T { #[ord(reverse)] pub a: u8, #[ord(reverse, key = $ / 2)] pub b: u8, pub c: u8 }\n" % traits)
+        progs.append("#![no_std]\n#![allow(dead_code)]\n#[derive(::derive_ex::Ex)] #[derive_ex(%s)] pub enum T { A(#[ord(reverse)] u8, u8), B { #[ord(ignore)] x: u8, #[ord(reverse, by = |a, b| a.cmp(b))] y: u8 } }\n" % traits)
+    progs.append("#![no_std]\n#![allow(dead_code)]\n#[::derive_ex::derive_ex(PartialOrd, PartialEq)] pub struct T(#[partial_ord(reverse)] pub u8, #[partial_ord(reverse, by = |a, b| a.partial_cmp(b))] pub u8);\n")
+    progs.append("#![no_std]\n#![allow(dead_code)]\n#[::derive_ex::derive_ex(Default, Debug, Clone)] pub enum T<G> { #[default] A, B(#[debug(ignore)] G, #[default(5)] u8), C { #[debug(transparent)] x: u8 } }\n")
     progs.append("#![no_std]\n#![allow(dead_code)]\n#[::derive_ex::derive_ex(Ord, PartialOrd, Eq, PartialEq, Hash)] pub struct T { #[ord(key = $ / 2)] pub a: u8, #[ord(by = |a, b| a.cmp(b))] #[hash(key = $)] pub b: u8, #[eq(ignore)] #[ord(ignore)] pub c: u8 }\n")
     wd = os.path.join(dx.WORK, "c13ns-%d" % os.getpid())
 
